@@ -21,4 +21,10 @@ CLAIMED.update({
         "properties; the conformance replay performs write-through probes (poke result, poke source, edit the result's dimension set in place, mutate "
         "an assigned ndarray) and compares every register with the specification after each step, which exposes shared memory.",
    technique="TLA+ workspace model (alias scenario) checked with TLC; behaviours with write-through probes replayed into flodym; all registers compared"),
+ "C14": dict(engine="dimsets", ref="6/C14",
+   text="The ordered-list model of DimensionSet (spec/DimSets.tla) is checked by TLC for UniqueInv, the algebraic laws of union / intersection / "
+        "difference / symmetric difference / '+', and the action property that only the call's target changes; every pair of sets over the alphabet "
+        "x every operator and every history of in-place / out-of-place operations to depth 2-3 (simulated to depth 10) is replayed into flodym, "
+        "comparing every register and every lookup form with the model after every step, including an array built from a set that is later edited.",
+   technique="TLA+ ordered-list state machine MC_DimSets checked with TLC (invariants, laws, action property); behaviours replayed into flodym"),
 })
